@@ -259,11 +259,12 @@ def clear_inactive_cache(
         if not version_path.is_dir():
             continue
         for file in os.scandir(version_path):
-            if file.stat().st_atime + _CACHED_FILE_MAXIMUM_SURVIVAL <= time.time():
-                try:
+            try:
+                if file.stat().st_atime + _CACHED_FILE_MAXIMUM_SURVIVAL <= time.time():
                     os.remove(file.path)
-                except OSError:  # silently ignore all failures
-                    continue
+            except OSError:  # silently ignore all failures
+                # (the file might e.g. have been removed by another process)
+                continue
     else:
         return True
 
